@@ -15,5 +15,4 @@ size_t xb_strlen(const char *s);
 #include "env/sockopt.h"
 #include "env/btcp_env.h"
 #include "contracts/btcp.h"
-/* ghost state of this unit: arbitrary at the start of every harness */
-#define XB_HAVOC() do { xv_ghost_havoc(); xb_env_havoc(); xv_sockopt_havoc(); xb_ghost_havoc(); } while (0)
+/* every harness starts with  xv_ghost_havoc(); xb_env_havoc(); xv_sockopt_havoc(); xb_ghost_havoc();  (ghost state arbitrary) */
